@@ -170,6 +170,9 @@ func Minimise(t *testing.T, s0 *Scenario, class string, mk func() Checker, budge
 	// 6. package: prune modules no request needs
 	try(func(c *Scenario) bool {
 		need := map[string]bool{}
+		if c.Pkg.Spkg != "" {
+			return false
+		}
 		for _, h := range c.History {
 			if h.Pkg != nil {
 				return false
